@@ -92,6 +92,9 @@ func c40Predict(s *orcStep, res *run.Result) (p c40Pred) {
 			}
 			p = c40Pred{}
 			res.Inc("deltas_panicked")
+			if s.Trigger != "" {
+				sig = "C40." + s.Trigger + ":" + sig
+			}
 			orcViol(res, "C40.deltas-crash", sig, fmt.Sprintf("panic in the prediction for %s: %v\n%s\n%s", c, e, s.describe(), trunc(st, 1500)))
 		}
 	}()
@@ -169,10 +172,7 @@ func c40Judge(s *orcStep, res *run.Result, p c40Pred) {
 	} else if ei := pre.findEdge(k); ei >= 0 && (pre.Objs[pre.Edges[ei].Src].Foreign || pre.Objs[pre.Edges[ei].Dst].Foreign) {
 		tcls = "imported-endpoint"
 	}
-	trig := variant
-	if tcls == "imported" || tcls == "imported-endpoint" {
-		trig += ":imported"
-	}
+	_ = tcls
 	reported := false
 	showDeltas := func() string {
 		var ks []string
@@ -195,7 +195,7 @@ func c40Judge(s *orcStep, res *run.Result, p c40Pred) {
 			return
 		}
 		reported = true
-		orcViol(res, "C40."+clause, "C40."+clause+":"+what+":"+trig, msg+"\npredicted deltas:\n"+showDeltas()+s.describe())
+		orcViol(res, "C40."+clause, orcSig(s, "C40", clause, what+":"+variant), msg+"\npredicted deltas:\n"+showDeltas()+s.describe())
 	}
 	// Rename, Move and Reconnect never remove anything, and Delete removes only its target
 	// and the connections attached to it: any other disappearance is the edit's own defect
@@ -243,7 +243,7 @@ func c40Judge(s *orcStep, res *run.Result, p c40Pred) {
 			}
 		}
 	}
-	res.Inc("compared_" + strings.ReplaceAll(variant, "-", "_"))
+	orcJudged(s, res, "compared_"+strings.ReplaceAll(variant, "-", "_"))
 	removed := map[string]string{} // old AbsID of removed tagged elements -> tag
 	// role of an element relative to the edit's target (part of the signature: a wrong
 	// prediction for the target itself, for something inside its subtree, for a connection
